@@ -1534,6 +1534,9 @@ mutual
       let kind ← operandKind
       operandName
       let st ← getSt
+      -- the instruction that loads NAME (the one `operandName` has just emitted): a matrix block
+      -- repeats it after `END matrix`, commands inside the block may have loaded other names
+      let nameInst : Instr := st.code.back?.getD .nop
       if st.cur.ty == .zone then do
         zoneRange
         emit (.moveq (.operand .mzLight) (.reg .operand))
@@ -1547,6 +1550,7 @@ mutual
           matrixOperandList f
           (if st.cur.ty != .begin_ then emit .color else pure ())
           emit .endMatrix
+          (if st.cur.ty == .begin_ then emit nameInst else pure ())
           emit (.moveq (.operand .matrixLight) (.reg .operand))
       else emit (.moveq (.operand kind) (.reg .operand))
 
